@@ -60,6 +60,12 @@ Plan shrink_plan(const Plan &orig, const FailPred &pred, int max_reruns, int *re
         Shrinker S(pred, max_reruns);
         Plan cur = orig;
         bool progress = true;
+        // marathon plans (pump ops, giant lines) cost up to a second per re-run
+        int64_t heavy = 0;
+        for (auto &o : orig.ops)
+                heavy += o.kind == OP_PUMP ? o.c * o.d : o.kind == OP_IN ? (int64_t)o.data.size() / 8 : 0;
+        if (heavy > 4000)
+                S.budget = std::min(S.budget, 120);
         while (progress && S.used < S.budget) {
                 progress = false;
                 // 1. ddmin over ops
@@ -108,6 +114,19 @@ Plan shrink_plan(const Plan &orig, const FailPred &pred, int max_reruns, int *re
                 // 3. simplify counts
                 for (size_t i = 0; i < cur.ops.size() && S.used < S.budget; i++) {
                         Op &o = cur.ops[i];
+                        if (o.kind == OP_PUMP && o.c > 1) {
+                                for (int64_t v : {(int64_t)1, o.c / 16, o.c / 2, o.c - 1}) {
+                                        if (v >= o.c || v < 1)
+                                                continue;
+                                        Plan c = cur;
+                                        c.ops[i].c = v;
+                                        if (S.test(c)) {
+                                                cur = c;
+                                                progress = true;
+                                                break;
+                                        }
+                                }
+                        }
                         if ((o.kind == OP_SVC || o.kind == OP_RX_STALL || o.kind == OP_TX_REFUSE) && o.a > 1) {
                                 for (int64_t v : {(int64_t)1, o.a / 2, o.a - 1}) {
                                         if (v >= o.a || v < 1)
